@@ -114,6 +114,34 @@ def run(ctx):
     ctx.ob("T9-curvature-shape", cu.name, "term", "ok" if okt else "violation",
            "each term is Rational64::new(if loopless { 2 } else { 1 }, v)" if okt else "the per-orbit term is not (2 or 1)/v")
     symbol_digits(ctx, g)
+    loopless_test(ctx, g)
+
+
+def loopless_test(ctx, g):
+    """orbit_types_2d: an (i, j)-orbit counts 2/v in the curvature iff NO chamber e of it is fixed by op(i, .) or op(j, .): the test runs over
+    every chamber of the orbit of the representative, for both indices, at the chamber itself"""
+    ctx.clauses.append("an orbit is loopless iff no chamber of it is fixed by either of its two operations (T2)")
+    b = ctx.body(M + "orbit_types_2d")
+    ctx.scan(ctx.facts.with_closures(b.name))
+    ds = ("param", 1, b.debug.get(1, ""))
+    alls = list(b.calls("Iterator::all"))
+    ctx.require(len(alls) >= 1, "T2-loopless-test", b.name, "all(..)", "universal test over the orbit", "orbit_types_2d no longer asks whether ALL chambers of the orbit are free of loops")
+    for bi, t in alls[:1]:
+        src = norm(b.origin(t["args"][0]), g)
+        src = norm(b.def_origin(src), g) if src[0] == "local" else src
+        orb = [x for x in subterms(src) if is_call(x, "DSet::orbit") and strip(x[2][0]) == ds]
+        okorb = False
+        idx = []
+        if orb:
+            arr = strip(orb[0][2][1])
+            idx = [strip(x) for x in arr[2]] if arr[0] == "agg" else []
+            d_ = strip(orb[0][2][2])
+            reps = loop_range_of_payload  # (unused)
+            okorb = len(idx) == 2 and iter_source(b, d_, g) is not None and contains(norm(iter_source(b, d_, g), g) if isinstance(iter_source(b, d_, g), tuple) else ("?",), lambda y: is_call(y, "orbit_reps_2d"))
+        ctx.ob("T2-loopless-test", b.name, "chambers", "ok" if okorb else "violation",
+               "the test runs over ds.orbit([i, j], d) of each 2-orbit representative d" if okorb else "the loopless test does not run over the (i, j)-orbit of a representative from orbit_reps_2d(i, j): " + show(src, 1)[:90], b.span_of(bi))
+        if len(idx) == 2:
+            orbit_member_fixed_tests(ctx, "T2-loopless-test", b, bi, t, g, ds, idx, "all", "op(i, e) != Some(e) && op(j, e) != Some(e)")
 
 
 def symbol_digits(ctx, g):
